@@ -66,6 +66,17 @@ pub fn scenarios(tier: &str, seed: u64) -> Vec<Scn> {
             }
         }
     }
+    // a large stored snapshot being read while a new one is uploaded (always kept)
+    for bk in [Bk::Mem, Bk::Sql1] {
+        for entry in [Entry::Http, Entry::Lib] {
+            for (name, progs) in [("GETSNAP||SNAP", vec![vec![GetSnap], vec![Snap(Latest)]]), ("GETSNAP||SNAP||GETSNAP", vec![vec![GetSnap], vec![Snap(Latest)], vec![GetSnap]])] {
+                if entry == Entry::Lib && name.len() > 14 {
+                    continue;
+                }
+                out.push(Scn { name: format!("{name}/{bk:?}/{entry:?}/Chain3BigSnap"), bk, entry, prefix: Prefix::Chain3BigSnap, programs: progs });
+            }
+        }
+    }
     out
 }
 
